@@ -121,6 +121,13 @@ func (fr *Frame) execInstr(in ssa.Instruction) {
 		fr.vals[in] = &v
 	case *ssa.ChangeInterface:
 		v := *fr.val(in.X)
+		if v.T != nil && v.T.S == SErr && w.SortOf(in.Type()) == SVal {
+			// an error value viewed as interface{} (only ever formatted): an opaque Go value, nil stays nil
+			ex.p.DeclareFun("goOfErr", []*Sort{SErr}, SInt)
+			t := Ite(App("(_ is ErrNil)", SBool, v.T), VNil, App("VGo", SVal, IntLit(25), App("goOfErr", SInt, v.T)))
+			fr.vals[in] = &GVal{T: t, Typ: in.Type()}
+			break
+		}
 		v.Typ = in.Type()
 		fr.vals[in] = &v
 	case *ssa.Convert:
